@@ -1,8 +1,9 @@
 #![no_main]
 use libfuzzer_sys::fuzz_target;
 
-// The input bytes are the random stream of the C19/decode proptest strategy; the same oracle as in
-// `./check C19` runs inside the target (see harness/src/lib.rs: fuzz_one).
+// The input bytes are decoded into the case type of C19/decode by the structure-preserving serde decoder
+// (harness/src/bytede.rs), sanitized into the generator's domain, and judged by the same oracle as in
+// `./check C19` (harness/src/lib.rs: fuzz_one).
 fuzz_target!(|data: &[u8]| {
     avh::fuzz_one("C19", "decode", data);
 });
